@@ -43,7 +43,7 @@ def main():
                                 "-m", "not gpu", "--deselect",
                                 "tests/stochastic/test_rough_bergomi.py::test_generate_rough_bergomi"],
                                cwd=scratch, capture_output=True, text=True,
-                               env=dict(os.environ, PYTHONWARNINGS="ignore"))
+                               env=dict(os.environ, PYTHONWARNINGS="ignore", OMP_NUM_THREADS="1", MKL_NUM_THREADS="1"))
             tail = r.stdout.strip().splitlines()[-1:] if r.stdout.strip() else []
             res["suite"] = {"passed": r.returncode == 0, "tail": tail, "wall": round(time.time() - t0, 1)}
             if r.returncode != 0:
